@@ -43,6 +43,7 @@ type recvReq struct {
 	pass    string
 	hasAuth bool
 	chunked bool
+	readErr bool // the body ended with an error (the sender gave up in the middle)
 	body    []byte
 }
 
@@ -75,7 +76,7 @@ func newScriptedReceiver() *scriptedReceiver {
 			w.WriteHeader(ec) // refused before the body has been read
 			return
 		}
-		b, _ := io.ReadAll(r.Body)
+		b, rerr := io.ReadAll(r.Body)
 		if sr.delay > 0 {
 			time.Sleep(sr.delay)
 		}
@@ -92,7 +93,7 @@ func newScriptedReceiver() *scriptedReceiver {
 		sr.mu.Lock()
 		seq := len(sr.reqs)
 		sr.reqs = append(sr.reqs, recvReq{seq: seq, method: r.Method, path: r.URL.Path, ctype: r.Header.Get("Content-Type"), ingest: r.Header.Get("DASH-IF-Ingest"),
-			user: u, pass: p, hasAuth: ok, chunked: len(r.TransferEncoding) > 0 && r.TransferEncoding[0] == "chunked", body: b})
+			user: u, pass: p, hasAuth: ok, chunked: len(r.TransferEncoding) > 0 && r.TransferEncoding[0] == "chunked", body: b, readErr: rerr != nil})
 		code := sr.failNth[seq]
 		sr.mu.Unlock()
 		if code != 0 {
@@ -151,6 +152,11 @@ type sessResult struct {
 
 // runSess: a = asset, cfg (comma separated URL parts or "-"), nowMS, dur|-, events
 func runSess(a []string, tweak func(sr *scriptedReceiver, setup map[string]any)) (string, *sessResult) {
+	return runSessWait(a, 1500*time.Millisecond, tweak)
+}
+
+// runSessWait: wait is how long the uploads of the init phase and of one step are waited for
+func runSessWait(a []string, wait time.Duration, tweak func(sr *scriptedReceiver, setup map[string]any)) (string, *sessResult) {
 	if len(a) != 5 {
 		return "bad-op", nil
 	}
@@ -206,9 +212,9 @@ func runSess(a []string, tweak func(sr *scriptedReceiver, setup map[string]any))
 	res := &sessResult{dest: "/up/ch"}
 	// wait for the init segments (one per representation in the MPD: count settles)
 	last := -1
-	waitFor(1500*time.Millisecond, func() bool {
+	waitFor(wait, func() bool {
 		n := len(sr.snapshot())
-		if n > 0 && n == last {
+		if n > 0 && n == last && (wait <= 1500*time.Millisecond || n >= 2) {
 			return true
 		}
 		last = n
@@ -236,7 +242,7 @@ func runSess(a []string, tweak func(sr *scriptedReceiver, setup map[string]any))
 				continue
 			}
 			// one segment per representation is expected: wait for them (or for the stream to settle)
-			waitFor(1500*time.Millisecond, func() bool { return len(sr.snapshot()) >= before+nReps })
+			waitFor(wait, func() bool { return len(sr.snapshot()) >= before+nReps })
 			time.Sleep(5 * time.Millisecond)
 		case 'd':
 			code, _, hung := apiCall(s, "DELETE", "/api/cmaf-ingests/"+id, nil)
@@ -466,6 +472,7 @@ func genC16(c *Ctx) {
 	}
 	genCsrc(c)
 	c16ChunkedFailures(c, s)
+	c16LongUploads(c, s)
 	c16RealTime(c, s)
 	for i := 0; i < c.N(3, 12); i++ {
 		a := assets[r.Intn(len(assets))]
@@ -792,6 +799,53 @@ func c16Check(c *Ctx, s *app.Server, a *app.VerifAsset, cf string, now int, dur,
 
 // c16RealTime: a session on the wall clock (no test instant) with $Time$ addresses against a receiver that stalls once for
 // longer than two segment durations: the sender catches up afterwards — and still delivers every segment once, in order.
+// c16LongUploads (thorough tier, ~25 s of wall clock): uploads that take longer than a few seconds are still complete.
+// (1) the receiver answers the first init segment only after 5.6 s: the session goes on and the steps deliver;
+// (2) a chunked low-latency session whose segments are written over more than 6 s (ato_6/chunkdur_2 on 8 s segments):
+// every representation receives its segment whole (no body cut off in the middle) and the next step delivers the next.
+func c16LongUploads(c *Ctx, s *app.Server) {
+	if !c.Thorough() {
+		return
+	}
+	if a := findVAsset("testpic_2s"); a != nil {
+		args := []string{a.AssetPath, "-", strconv.Itoa(3*a.LoopDurMS + 300), "-", "ss"}
+		line := "sess " + strings.Join(args, " ") + " # receiver answers the first init after 5.6 s"
+		out, res := runSessWait(args, 8*time.Second, func(sr *scriptedReceiver, _ map[string]any) {
+			sr.slowOnceRe = regexp.MustCompile(`init\.cmf[va]$`)
+			sr.slowOnceDur = 5600 * time.Millisecond
+		})
+		c.Count("long-upload.slow-init")
+		if res == nil || res.hung != "" || strings.Count(out, "s:[") != 2 || strings.Contains(out, "s:[]") {
+			c.Violate("long-upload", "a receiver that answers the first init segment after 5.6 s: the session does not deliver its steps: "+out, []string{line}, nil)
+		}
+	}
+	if a := findVAsset("testpic_8s"); a != nil {
+		now := 10*a.SegmentDurMS + 100
+		args := []string{a.AssetPath, "ato_6,chunkdur_2", strconv.Itoa(now), "-", "s"}
+		line := "sess " + strings.Join(args, " ") + " # chunked upload lasting > 6 s"
+		out, res := runSessWait(args, 14*time.Second, nil)
+		c.Count("long-upload.chunked")
+		if res == nil || res.hung != "" {
+			c.Violate("long-upload", "chunked session with uploads lasting more than 6 s: "+out, []string{line}, nil)
+			return
+		}
+		media := 0
+		for _, q := range res.reqs {
+			m := sessPathRe.FindStringSubmatch(q.path)
+			if m == nil || m[2] == "init" {
+				continue
+			}
+			media++
+			if q.readErr || !bytes.Contains(q.body, []byte("mdat")) {
+				c.Violate("long-upload", fmt.Sprintf("chunked upload %s: the body was cut off (%d bytes, read error %v)", q.path, len(q.body), q.readErr), []string{line}, nil)
+			}
+		}
+		if media < 2 {
+			c.Violate("long-upload", fmt.Sprintf("chunked session with 8 s segments and ato_6: %d media uploads arrived for one step (%s)", media, out), []string{line}, nil)
+		}
+	}
+}
+
 func c16RealTime(c *Ctx, s *app.Server) {
 	a := findVAsset("testpic_2s")
 	if a == nil {
